@@ -328,6 +328,10 @@ def monitor_case(ops, obs, which):
                 V("C15", "file-lags-after-truncate", f"after a truncate of this file-backed arena the file is no longer the arena: reopening it as it is now gives a different state (open: {o.get('cr')})", i)
         if op == "crashcheck" and r == "ok" and o.get("cp", "ok") != "ok" and not fstate.get("tampered"):
             V("C06", "reopened-op-" + o["cp"], f"killed after {ops[i-1].strip() if i > 0 else 'creation'}: the file opens again, but an operation on the reopened arena (a request the free list must serve / a release / discard_freelist) ends with {o['cp']}", i)
+        if op == "close" and r == "ok" and o.get("mp", "0") != "0":
+            V("C13", "mapping-not-released", f"after the last arena value was dropped the process still maps the file ({o['mp']} mapping(s)): the backing memory was not (completely) released", i)
+        if op == "close" and r == "ok" and "um" in o and o["um"] != "1":
+            V("C13", "unmount-count", f"close released the backing memory {o['um']} times (expected exactly once)", i)
         if op == "close_last" and r == "ok":
             if o.get("mp", "0") != "0":
                 V("C13", "mapping-not-released", f"after the last owner (handle {t[1]}) was dropped the process still maps the file ({o['mp']} mapping(s))", i)
